@@ -211,7 +211,7 @@ pub fn path_roundtrip_check(m: &rosu_map::Beatmap, text: &str) -> Option<String>
         let a = rosu_map::from_path::<rosu_map::Beatmap>(&path);
         let b = rosu_map::from_bytes::<rosu_map::Beatmap>(text.as_bytes());
         match (a, b) {
-            (Ok(a), Ok(b)) if a == b => None,
+            (Ok(a), Ok(b)) if format!("{a:?}") == format!("{b:?}") => None,
             (Err(_), Err(_)) => None,
             _ => Some("from_path of the saved file differs from from_bytes of the encoded text".to_owned()),
         }
